@@ -17,7 +17,7 @@ Open Scope Z_scope.
    to the lookup (RTSP: CanonicalPath of the request URL or the session path; /streams/ URLs: the canonical
    stream path, for a segment without its sequence number; WSP / ws-rtsp: the session path), not on the spelling
    the permission check is given.  ev_ok: the pattern language and the registry read p as the same resource
-   (false only for a blank-edged dot segment, the known finding C11_unsettled_path_refuted). *)
+   (false only for a blank-edged dot segment; the finding that rested on it is fixed, C11_unsettled_path_fixed). *)
 Theorem C11_served_requires_permit : forall w s ev,
   reachable w s ->
   let o := snd (step w s ev) in
@@ -53,14 +53,16 @@ Theorem C11_same_segments_same_decision : forall admin r p q,
 Proof. exact spec_permit_same_segs. Qed.
 Print Assumptions C11_same_segments_same_decision.
 
-(* known finding (CanonicalPath not idempotent, cf. C18): the strict oracle fails on the model of the code as it is *)
-Theorem C11_unsettled_path_refuted :
-  ok_run_strict w2 s2 unsettled_evs (run w2 s2 unsettled_evs) = false /\
+(* former known finding (one pass of CanonicalPath is not idempotent, cf. C18), fixed in /repo by
+   "fix: CanonicalPath is idempotent": on the former witness the right is now checked on "/a", the path served;
+   eve is refused and the strict oracle holds *)
+Theorem C11_unsettled_path_fixed :
+  ok_run_strict w2 s2 unsettled_evs (run w2 s2 unsettled_evs) = true /\
   ok_run w2 s2 unsettled_evs (run w2 s2 unsettled_evs) = true /\
-  map o_code (run w2 s2 unsettled_evs) = [0; 200] /\
+  map o_code (run w2 s2 unsettled_evs) = [0; 403] /\
   spec_allows (users s2) (u_name (mk_eve)) APull (w2_a) = false.
-Proof. exact unsettled_path_refuted. Qed.
-Print Assumptions C11_unsettled_path_refuted.
+Proof. exact unsettled_path_fixed. Qed.
+Print Assumptions C11_unsettled_path_fixed.
 
 (* before the repair of extractStreamPathAndExt the right was checked on the URL spelling *)
 Theorem C11_url_spelling_refuted :
